@@ -799,8 +799,74 @@ func TestPhaseChild(t *testing.T) {
 	}
 }
 
+// sharedProbe observes, through the public API and on fixed inputs of its own, everything a query
+// could reach besides its operands: the alphabet tables, the letters drawn by a seeded Mutate, the
+// genetic codes, the complement table, alphabet detection. A history of queries on some alignment
+// must leave it as it was (no state shared through the package)
+func sharedProbe() string {
+	var sb strings.Builder
+	nt := align.NewAlign(align.NUCLEOTIDS)
+	nt.AddSequence("p", "ACGTRYKMSWNACGTTTGACC-", "")
+	nt.AddSequence("q", "ACGAGGKMSWNACTTCTGAAC-", "")
+	aa := align.NewAlign(align.AMINOACIDS)
+	aa.AddSequence("p", "ARNDCQEGHILKMFPSTWYVX*-", "")
+	fmt.Fprintf(&sb, "%s|%s|%s|%s|", nt.AlphabetCharacters(), aa.AlphabetCharacters(), nt.AlphabetStr(), aa.AlphabetStr())
+	for _, ch := range []uint8("ACGTUacgtuNX-") {
+		fmt.Fprintf(&sb, "%d,%d;", nt.AlphabetCharToIndex(ch), aa.AlphabetCharToIndex(ch))
+	}
+	rand.Seed(20240607)
+	m, _ := nt.Clone()
+	m.Mutate(1)
+	m.IterateChar(func(n string, b []uint8) bool { sb.Write(b); sb.WriteByte('|'); return false })
+	ma, _ := aa.Clone()
+	ma.Mutate(1)
+	ma.IterateChar(func(n string, b []uint8) bool { sb.Write(b); sb.WriteByte('|'); return false })
+	for code := 0; code < 3; code++ {
+		s := align.NewSequence("t", []uint8("ATGAAATGAAGATAGATACTGTTTCCCGGGTAA"), "")
+		if tr, err := s.Translate(0, code); err == nil {
+			sb.WriteString(tr.Sequence() + "|")
+		}
+	}
+	c := []uint8("ACGTRYSWKMBDHVNacgtryswkmbdhvn")
+	align.Complement(c)
+	sb.Write(c)
+	fmt.Fprintf(&sb, "|%d,%d,%d", nt.DetectAlphabet(), aa.DetectAlphabet(), align.DetectAlphabet("ACGUN"))
+	cs := nt.CharStats()
+	fmt.Fprintf(&sb, "|%d,%d", cs['A'], cs['T'])
+	// pairwise alignment: substitution matrices and their character index
+	for _, pair := range [][2]string{{"ACGTTGCAAC", "ACGTAGCAAC"}, {"ACGUUGCAAC", "ACGTAGCAAC"}, {"MKVLAWQE", "MRVLSWQD"}, {"acgtn", "ACGTN"}, {"MKV*", "MKVX"}} {
+		a := align.NewPwAligner(align.NewSequence("x", []uint8(pair[0]), ""), align.NewSequence("y", []uint8(pair[1]), ""), align.ALIGN_ALGO_SW)
+		if _, err := a.Alignment(); err != nil {
+			sb.WriteString("|" + err.Error())
+		} else {
+			fmt.Fprintf(&sb, "|%v:%s", a.MaxScore(), a.AlignmentStr())
+		}
+	}
+	if p, err := nt.Pssm(false, 0, align.PSSM_NORM_NONE); err == nil {
+		fmt.Fprintf(&sb, "|%v|%v", p['A'], p['T'])
+	}
+	return sb.String()
+}
+
+var lastProbe string
+
 func checkQueries(test string) func(c qCase) (pbt.Outcome, error) {
 	return func(c qCase) (o pbt.Outcome, err error) {
+		// nothing runs between two cases of this process: the probe after the previous case is the
+		// probe before this one
+		if lastProbe == "" {
+			lastProbe = sharedProbe()
+		}
+		probe := lastProbe
+		defer func() {
+			after := sharedProbe()
+			lastProbe = after
+			if err == nil {
+				if after != probe {
+					err = fmt.Errorf("the history of queries changed state shared by all alignments (observed on fixed inputs of the harness)\n before: %s\n after : %s", probe, after)
+				}
+			}
+		}()
 		sb := buildContainer(c.Ali)
 		before := snapshot(sb)
 		// the container holds what was generated
